@@ -341,7 +341,7 @@ fn cmd_check(args: &[String]) -> i32 {
         "coverage": {
             "evaluations": evaluations,
             "distinct_nontrivial": distinct,
-            "rule": meta.rule,
+            "rule": if prop == "C07" { meta.rule.to_string() } else { format!("{} || Session additions: sub-campaign echo-sweeps (bounded-exhaustive; every API call this property is about is a 'look'): (foreign) look at the graph under test, R-1 times the same look at another graph, look again: equal answers, R in {{2,255,256,257,65535,65536,65537}} (thorough: 30 counts up to 131073); (stale) two graphs built alike, everything asked of the first only, the same R mutations on both (7 families), every look agrees; (fault) look, one of 20 kinds of foreign activity on the same thread (another graph forming/collecting groups, failing parses, failing sinks, failing save/load/merge/deploy), look again: equal. Stateful engines also generate Call::Noise (the same foreign activities between the calls of a history; the model does not move) and Call::Masquerade (another graph lives at g's address and is queried there, then g is restored); one gcmodel case in four is re-run blind (no keys() around the calls; one complete look at the end); sweep dimension hash-twins (texts colliding under 18 common 32-bit hash functions as labels of one vertex / data of two).", meta.rule) },
             "samples": samples,
             "exhaustive": exhaustive,
             "replayed_regression_files": replayed,
